@@ -131,8 +131,9 @@ class LoopExpression(Expression):
         stop = None if limit is None else limit + start
 
         start_ = min(max(start, 0), length)
-        stop_ = min(stop or length, length)
-        length_ = max(stop_ - start_, 0)
+        # A stop index of zero (`limit: 0`) means no iterations, not "no limit".
+        stop_ = length if stop is None else min(max(stop, start_), length)
+        length_ = stop_ - start_
 
         context.stopindex(key=offset_key, index=stop_)
         it = islice(it, start_, stop_)
